@@ -282,6 +282,23 @@ def compute (src : Array (Cx β)) (rowMajor : Bool) (n : Int) (uplo : Int) (shif
   let permc := compress_permutation (fun i => s.perm.getD i.toNat 0) n
   { s := s, info := info, permc := permc, tags := tags }
 
+/-- `compute(mat, uplo, shift)` called on an object that already went through any history (`prev`): the members are reset exactly as
+    the header does it (`BKLDLT.enterSt`: `m_n`, `m_perm`, `m_permc`, `m_info` overwritten; the packed array resized but NOT cleared).
+    `C10.c10_compute_history_independent` proves the result equals `compute` on a fresh object. -/
+def computeFrom (prev : BKLDLT.Fact (Cx β)) (src : Array (Cx β)) (rowMajor : Bool) (n : Int) (uplo : Int) (shift alpha : β) : BKLDLT.Fact (Cx β) :=
+  let s := copy_data (BKLDLT.enterSt prev.s n) src rowMajor uplo shift
+  let info := compute_init_info prev.info
+  let (k, info, s, tags) := computeLoop alpha n.toNat 0 info s []
+  let (akk, s) : Cx β × St (Cx β) :=
+    if k = n - 1 then
+      let (d, s) := s.get k k
+      let a := realC d
+      (a, s.wr k k a)
+    else (czero, s)
+  let info := compute_final_info n k info akk
+  let permc := compress_permutation (fun i => s.perm.getD i.toNat 0) n
+  { s := s, info := info, permc := permc, tags := tags }
+
 /-! ### solve_inplace -/
 
 /-- step 3: `D w = z` -/
